@@ -37,7 +37,7 @@ TRUSTED_BASE = [
     "no extraction (no Extract Constant / Extract Inductive); the model runs only inside Coq",
     "translators/*.py and CPython's re._parser / ast (regenerate coq/Gen/*.v from /repo on every run)",
     "correspondence harness: harness/*.py generators + canonicalisers, coq/Corr/CaseLib.v (string decoding, comparison loop)",
-    "hand-written Gallina model of reader.py / las.py / las_items.py / writer.py logic (tied by correspondence, not verified against the Python source)",
+    "hand-written Gallina model of reader.py / las.py / las_items.py / writer.py logic (46 pinned functions/fragments proved equal to the translation of /repo on every run; the rest tied by correspondence)",
 ]
 
 
